@@ -14,8 +14,8 @@
    Pass 3 is modelled as ONE structural pass over the byte stream that is the state machine of
    TokenisedStream.skip_to (same clauses, same token-length table as Program.skip_to) with the loop body
    inlined where skip_to stops on a 0E byte; each new skip_to call starts with literal = rem = False,
-   which is the state in which the 0E byte was found.  Not modelled: on an Illegal function call raised
-   in the middle of pass 1, last_stored has already been set to the last assigned number. *)
+   which is the state in which the 0E byte was found.  A RENUM rejected in the middle of pass 1 has
+   already set last_stored to the last assigned number: [reject_last]. *)
 From Coq Require Import ZArith List Bool.
 From PCB Require Import lib.Result lib.PyInt gen.Gen_program model.Program.
 Import ListNotations.
@@ -35,6 +35,26 @@ Definition renum_assign (d : list (Z * Z)) (new_line start_line step : Z) : res 
   let remaining := filter (fun k => k <? start_line) (keys d) in
   if (match lmax remaining with Some m => new_line <=? m | None => false end) then Err err_IFC
   else assign_loop (sort_Z (filter (fun k => start_line <=? k) (keys d))) new_line step.
+
+(* last_stored after a RENUM that is rejected with Illegal function call: guard 1 fails before anything is
+   assigned; guard 2 fails inside the loop, after `self.last_stored = new_line` of the earlier lines *)
+Fixpoint assign_last (ks : list Z) (new_line step cur : Z) : Z :=
+  match ks with
+  | [] => cur
+  | k :: r =>
+      if (k <? 65535) && (new_line >? 65529) then cur
+      else if k =? 65536 then cur
+      else assign_last r (new_line + step) step new_line
+  end.
+Definition reject_last (s : prog) (new_line start_line step : option Z) : Z :=
+  let nl := match new_line with Some x => x | None => 10 end in
+  let st := match start_line with Some x => x | None => 0 end in
+  let sp := match step with Some x => x | None => 10 end in
+  if (match step with Some x => x <? 1 | None => false end) then last_stored s
+  else
+    let remaining := filter (fun k => k <? st) (keys (lines s)) in
+    if (match lmax remaining with Some m => nl <=? m | None => false end) then last_stored s
+    else assign_last (sort_Z (filter (fun k => st <=? k) (keys (lines s)))) nl sp (last_stored s).
 
 (* ---- pass 2: bytecode.seek(line_numbers[old]); read(3); write(pack('<H', new)) *)
 Fixpoint write_numbers (bytes : list Z) (d o2n : list (Z * Z)) : res (list Z) :=
@@ -180,4 +200,11 @@ Definition renum_obs (x : res (renum_out * traps)) : list Z :=
   | Err e => [1; e]
   | Host h => [2; h]
   | OutOfFuel => [3]
+  end.
+
+(* the same, with last_stored after a rejected command *)
+Definition renum_obs_full (s : prog) (tr : traps) (new_line start_line step : option Z) : list Z :=
+  match renum_cmd s tr new_line start_line step with
+  | Err e => [1; e; reject_last s new_line start_line step]
+  | x => renum_obs x
   end.
